@@ -48,6 +48,8 @@ pub mod vocab {
         Done(Cb, bool),
         /// a callback future was dropped before it completed (it makes no further progress)
         Abandoned(Cb),
+        /// a callback future was polled on its own, outside a select (it started, or went on, without the kill port being looked at)
+        Progress(Cb),
         SetStatus(ActorStatus),
         NotifyStarted,
         /// `terminate()`: the actor's children are told to die
@@ -132,6 +134,12 @@ pub open spec fn last_polled(s: Seq<Effect>) -> Port { match s.last() { Effect::
 pub fn vx_pin<T>(t: T) -> (r: T) ensures r == t { unimplemented!() }
 impl SupervisionRx { #[verifier::external_body] pub fn recv(&mut self) -> SupRecv { unimplemented!() } }
 impl MessageRx { #[verifier::external_body] pub fn recv(&mut self) -> MsgRecv { unimplemented!() } }
+#[verifier::external_body] pub struct TryRecvError { _p: u8 }
+impl<T> CbFut<T> {
+    /// `Pin::as_mut`: the same future, reborrowed
+    #[verifier::external_body]
+    pub fn as_mut(&mut self) -> (r: CbFut<T>) ensures r.cb() == old(self).cb(), final(self).cb() == old(self).cb() { unimplemented!() }
+}
 /// `r.map(f).map_err(g)` on a Result (R22; std semantics over the closures' own postconditions)
 #[verifier::external_body]
 pub fn vx_result_map_map_err<T, E, U, F2, F: FnOnce(T) -> U, G: FnOnce(E) -> F2>(r: Result<T, E>, f: F, g: G) -> (o: Result<U, F2>)
@@ -374,3 +382,35 @@ pub broadcast proof fn lemma_step_extends(a: Seq<Effect>, b: Seq<Effect>, c: Seq
 }
 }
 } // verus!
+
+// ---- non-blocking looks at a receive end (tokio `try_recv`): logged like a poll of that port ----
+#[verus_verify]
+impl SignalRx {
+    #[verus_verify(external_body)]
+    #[verus_spec(r => with Tracked(log): Tracked<&mut EffectLog> ensures final(log).s == old(log).s.push(Effect::Poll(Port::Signal, r is Ok)))]
+    pub fn try_recv(&mut self) -> Result<Signal, TryRecvError> { unimplemented!() }
+}
+#[verus_verify]
+impl StopRx {
+    #[verus_verify(external_body)]
+    #[verus_spec(r => with Tracked(log): Tracked<&mut EffectLog> ensures final(log).s == old(log).s.push(Effect::Poll(Port::Stop, r is Ok)))]
+    pub fn try_recv(&mut self) -> Result<StopMessage, TryRecvError> { unimplemented!() }
+}
+#[verus_verify]
+impl SupervisionRx {
+    #[verus_verify(external_body)]
+    #[verus_spec(r => with Tracked(log): Tracked<&mut EffectLog> ensures final(log).s == old(log).s.push(Effect::Poll(Port::Supervision, r is Ok)))]
+    pub fn try_recv(&mut self) -> Result<SupervisionEvent, TryRecvError> { unimplemented!() }
+}
+#[verus_verify]
+impl MessageRx {
+    #[verus_verify(external_body)]
+    #[verus_spec(r => with Tracked(log): Tracked<&mut EffectLog> ensures final(log).s == old(log).s.push(Effect::Poll(Port::Message, r is Ok)))]
+    pub fn try_recv(&mut self) -> Result<MuxedMessage, TryRecvError> { unimplemented!() }
+}
+/// `FutureExt::now_or_never(fut)`: ONE poll of the future on its own
+#[verus_verify(external_body)]
+#[verus_spec(r =>
+    with Tracked(log): Tracked<&mut EffectLog>
+    ensures match r { Some(v) => final(log).s == old(log).s.push(Effect::Done(f.cb(), went_well(v))), None => final(log).s == old(log).s.push(Effect::Progress(f.cb())) })]
+pub fn vx_now_or_never<T>(f: CbFut<T>) -> Option<T> { unimplemented!() }
